@@ -407,6 +407,7 @@ nni_aio_start(nni_aio *aio, nni_aio_cancel_fn cancel, void *data)
 		aio->a_expire_ok = false;
 		aio->a_use_expire = false;
 		aio->a_count     = 0;
+		aio->a_result    = aio->a_abort_rv;
 		NNI_ASSERT(aio->a_result != NNG_OK);
 		nni_mtx_unlock(&eq->eq_mtx);
 		nni_task_dispatch(&aio->a_task);
@@ -456,8 +457,10 @@ nni_aio_abort(nni_aio *aio, nng_err rv)
 		if (fn == NULL) {
 			// We haven't been scheduled yet,
 			// so make sure that schedule will abort.
-			aio->a_abort  = true;
-			aio->a_result = rv;
+			// (Or the operation has completed already: its
+			// result is in a_result and stays there.)
+			aio->a_abort    = true;
+			aio->a_abort_rv = rv;
 		}
 		nni_mtx_unlock(&eq->eq_mtx);
 
